@@ -246,27 +246,37 @@ impl ProxyServer {
             format!("Accepted new tcp connection [{}].", tcp_connection_id),
         );
 
+        let (stream, _cloned_std_stream) =
+            match Self::set_stream_read_time_out(stream, &mut tcp_connection_logger) {
+                Ok((stream, cloned_std_stream)) => (stream, cloned_std_stream),
+                Err(e) => {
+                    tcp_connection_logger.write(
+                        LoggerLevel::Error,
+                        format!("Failed to set stream read timeout: {}", e),
+                    );
+                    return;
+                }
+            };
+        // Look up and consume the kernel's record for this connection here, in accept order:
+        // the per-connection tasks run concurrently, so a connection queued right behind a reset one
+        // from the same source port could otherwise find (and be served with) the other's record.
+        let audit_entry = TcpConnectionContext::get_audit_entry(
+            &client_addr,
+            &self.redirector_shared_state,
+            &mut tcp_connection_logger,
+            #[cfg(windows)]
+            ProxyServer::get_stream_rocket_id(&_cloned_std_stream),
+        )
+        .await;
+
         tokio::spawn({
             let cloned_proxy_server = self.clone();
             async move {
-                let (stream, _cloned_std_stream) =
-                    match Self::set_stream_read_time_out(stream, &mut tcp_connection_logger) {
-                        Ok((stream, cloned_std_stream)) => (stream, cloned_std_stream),
-                        Err(e) => {
-                            tcp_connection_logger.write(
-                                LoggerLevel::Error,
-                                format!("Failed to set stream read timeout: {}", e),
-                            );
-                            return;
-                        }
-                    };
                 let tcp_connection_context = TcpConnectionContext::new(
                     tcp_connection_id,
                     client_addr,
-                    cloned_proxy_server.redirector_shared_state.clone(),
+                    audit_entry,
                     cloned_proxy_server.proxy_server_shared_state.clone(),
-                    #[cfg(windows)]
-                    ProxyServer::get_stream_rocket_id(&_cloned_std_stream),
                 )
                 .await;
 
